@@ -59,6 +59,53 @@ def run_nl(ctx, seed, n):
     return n, nontriv, both_err, problems
 
 
+def run_port(rows, stream):
+    """the tie of Model/CstPrint.lean: the harness logs, for every text it formats, the FNV-1a hash of the real output per
+    (width, indent) (`origin: port` rows); the Lean driver formats the same text with the ported tokenizer + preparse + grammar +
+    printer + layout engine; the hashes must be EQUAL at every configuration (`ERR` = both report a syntax error).
+    returns (rows without the port rows, stats dict, problems)"""
+    port = [r for r in rows if r.get("origin") == "port"]
+    rest = [r for r in rows if r.get("origin") != "port"]
+    st = {"texts": 0, "evals": 0, "multi_layout": 0, "err_both": 0, "leaves": 0, "keeps": 0, "not_keeps": []}
+    if not port:
+        return rest, st, []
+    lines = "".join("F\t%s\t%s\t%s\t%s\n" % (r["hex"], r["classes"], r["widths"], ",".join(f"{o[0]}:{o[1]}" for o in r["outs"])) for r in port)
+    q = driver("C14", input=lines)
+    ans = q.stdout.split("\n")
+    problems = []
+    if q.returncode != 0 or len(ans) < len(port):
+        problems.append({"kind": "driver-crash", "stream": f"port/{stream}", "stderr": q.stderr[-2000:], "answered": len(ans), "asked": len(port),
+                         "first_unanswered": port[min(len(ans), len(port)) - 1].get("id")})
+    for r, l in zip(port, ans):
+        if not l:
+            continue
+        f = l.split("\t")
+        real = [o[2] for o in r["outs"]]
+        mine = f[1].split(",") if f[0] == "ok" and len(f) > 1 else [f[0]] * len(real)
+        st["texts"] += 1
+        st["evals"] += len(real)
+        if mine != real:
+            k = next(i for i in range(len(real)) if i >= len(mine) or mine[i] != real[i])
+            src = bytes.fromhex(r["hex"]).decode("utf-8", "replace") if r["hex"] != "-" else ""
+            problems.append({"kind": "port", "id": r["id"], "src": src, "w": r["outs"][k][0], "ind": r["outs"][k][1],
+                             "real": real[k], "model": mine[k] if k < len(mine) else None, "configs_differing": sum(1 for a, b in zip(real, mine) if a != b)})
+            continue
+        if f[0] != "ok":
+            st["err_both"] += 1
+            continue
+        if len(set(real)) >= 2:
+            st["multi_layout"] += 1
+        if len(f) > 2:
+            st["leaves"] += int(f[2])
+        if len(f) > 3:
+            if f[3] == "1":
+                st["keeps"] += 1
+            elif len(st["not_keeps"]) < 20:
+                src = bytes.fromhex(r["hex"]).decode("utf-8", "replace") if r["hex"] != "-" else ""
+                st["not_keeps"].append({"id": r["id"], "src": src, "detail": f[4] if len(f) > 4 else ""})
+    return rest, st, problems
+
+
 def attribute(row, known_by_class):
     """split the failures of one text into (known: {finding id: count}, new: [fail records])"""
     fails = row.get("fails", [])
@@ -119,6 +166,14 @@ def main(ctx, args):
     rows, doc_problems, other_problems = [], [], []
     doc_cases, doc_nontriv = 0, set()
     nl_cases, nl_nontriv, nl_both_err, nl_problems = 0, set(), 0, []
+    port_stats, port_problems, port_not_keeps = collections.Counter(), [], []
+
+    def take_port(rs, stream):
+        rest, st, pr = run_port(rs, stream)
+        port_not_keeps.extend(st.pop("not_keeps"))
+        port_stats.update(st)
+        port_problems.extend(pr)
+        return rest
     if args.replay:
         r = json.load(open(args.replay))
         if "tree" in r:
@@ -136,7 +191,7 @@ def main(ctx, args):
             if "w" in r and "ind" in r:
                 d["configs"] = [[r["w"], r["ind"]]]
             p = mmh("C14", ["texts"], input=json.dumps(d) + "\n")
-            rows += [json.loads(l) for l in p.stdout.split("\n") if l.strip()]
+            rows += take_port([json.loads(l) for l in p.stdout.split("\n") if l.strip()], "replay")
         else:
             ctx.violation("replay file names a proof obligation, nothing to re-run but the build", r, found_input=False)
     else:
@@ -153,7 +208,7 @@ def main(ctx, args):
         p = mmh("C14", ["texts"], input="".join(json.dumps(t) + "\n" for t in texts))
         if p.returncode != 0:
             other_problems.append({"kind": "harness-crash", "stream": "corpus", "stderr": p.stderr[-2000:]})
-        rows += [json.loads(l) for l in p.stdout.split("\n") if l.strip()]
+        rows += take_port([json.loads(l) for l in p.stdout.split("\n") if l.strip()], "corpus")
         # 2. shipped sources + mutations, generated programs, random documents — sharded
         shards = 16 if not thorough else 32
         nmut = 6 if not thorough else 40
@@ -187,7 +242,7 @@ def main(ctx, args):
             p = mmh("C14", job[1], input=job[2] if len(job) > 2 else None)
             if p.returncode != 0:
                 return ("crash", {"kind": "harness-crash", "stream": " ".join(job[1]), "stderr": p.stderr[-2000:]})
-            return ("rows", [json.loads(l) for l in p.stdout.split("\n") if l.strip()])
+            return ("rows",) + run_port([json.loads(l) for l in p.stdout.split("\n") if l.strip()], " ".join(job[1][:3]))
         for res in parallel(jobs, work):
             if res[0] == "docs":
                 doc_cases += res[1]
@@ -202,6 +257,9 @@ def main(ctx, args):
                 other_problems.append(res[1])
             else:
                 rows += res[1]
+                port_not_keeps.extend(res[2].pop("not_keeps"))
+                port_stats.update(res[2])
+                port_problems.extend(res[3])
     # ---- decide
     stats = collections.Counter()
     known_hits = collections.Counter()
@@ -284,6 +342,15 @@ def main(ctx, args):
         ctx.violation(f"layout model and the pretty crate disagree on {len(doc_problems)} documents (smallest: width={best['width']} tree={best['tree'][:200]}); "
                       "the content-invariance theorems no longer speak about the crate in use",
                       dict(best, correspondence="Model/Pretty.lean vs pretty crate", cases=len(doc_problems)), found_input=False)
+    for pr in [p for p in port_problems if p["kind"] != "port"]:
+        ctx.violation(f"{pr['kind']} in stream {pr.get('stream')}", pr, found_input=False)
+    port_dis = [p for p in port_problems if p["kind"] == "port"]
+    if port_dis:
+        best = min(port_dis, key=lambda d: len(d["src"]))
+        ctx.violation(f"ported printer (Model/CstPrint.lean) and the real pretty_print_cst disagree on {len(port_dis)} texts (smallest: {best['id']} at width={best['w']} "
+                      f"indent={best['ind']}); the C14_format_* theorems no longer speak about the formatter in use",
+                      dict(best, correspondence="Model/CstPrint.lean vs mimium-fmt cst_print.rs (rendered text, FNV-1a)", cases=len(port_dis),
+                           other_ids=[d["id"] for d in port_dis[:30]], replay_cmd="./check C14 --replay <this file>"), found_input=False)
     crashes = [p for p in nl_problems if p["kind"] != "nlrule"]
     for pr in crashes:
         ctx.violation(f"{pr['kind']} in stream {pr.get('stream')}", pr, found_input=False)
@@ -309,15 +376,20 @@ def main(ctx, args):
         if n or args.replay is None:
             ctx.known_finding(f"{k['id']} [{k.get('class','')}] {k['what']} (failing (text,config) pairs attributed this run: {n})")
     ctx.coverage.update({
-        "evaluations": stats["evaluations"] + doc_cases + nl_cases,
+        "evaluations": stats["evaluations"] + doc_cases + nl_cases + port_stats["evals"],
         "distinct_nontrivial": len(nontrivial) + len(doc_nontriv) + len(nl_nontriv),
         "rule": "program cases: one evaluation = one (source text, width, indent) with all four checks (parse, AST, comments, fixed point); gap-insertion variants (one comment in one token gap of a class-free text, 4 kinds) count as texts with 4 configurations each; "
                 "non-trivial = the text was formatted to at least two different outputs across the 16 configurations (layout really depends on width/indent), distinct by id; "
                 "parser cases: one evaluation = one (token-class sequence, line-break placement) parsed by the real parser and the newline-rule model, non-trivial = error-free with at least one line break, distinct by (classes, breaks); "
                 "document cases: one evaluation = one (document, width) rendered by the real crate and the model; non-trivial = output contains a line break, distinct by (width, tree)",
         "samples": samples or [{"note": "replay mode"}],
-        "traces_validated_against_impl": doc_cases + nl_cases,
-        "model_impl_disagreements": len(doc_problems) + len(nl_dis),
+        "traces_validated_against_impl": doc_cases + nl_cases + port_stats["evals"],
+        "model_impl_disagreements": len(doc_problems) + len(nl_dis) + len(port_dis),
+        "printer_port": {"texts_formatted_by_both": port_stats["texts"], "text_x_config_compared": port_stats["evals"],
+                         "texts_with_two_layouts": port_stats["multi_layout"], "both_report_syntax_error": port_stats["err_both"],
+                         "disagreements": len(port_dis), "text_leaves_printed(model)": port_stats["leaves"],
+                         "texts_in_class_keepsAll": port_stats["keeps"], "texts_outside_keepsAll(sample)": port_not_keeps[:5],
+                         "comparison": "FNV-1a of the whole output text, every (width, indent) the harness formats the text at"},
         "parser_cases": nl_cases, "parser_cases_nontrivial": len(nl_nontriv), "parser_cases_both_report_errors": nl_both_err,
         "impl_property_failures": stats["texts_failing"],
         "impl_property_failures_outside_known_classes": len(new_fail),
